@@ -3765,6 +3765,7 @@ func (a *Association) movePendingDataChunkToInflightQueue(chunkPayload *chunkPay
 	// Assign TSN and original send time
 	chunkPayload.tsn = a.generateNextTSN()
 	chunkPayload.since = time.Now()
+	chunkPayload.firstSent = chunkPayload.since
 	chunkPayload.nSent = 1
 
 	a.checkPartialReliabilityStatus(chunkPayload)
@@ -4006,7 +4007,17 @@ func (a *Association) checkPartialReliabilityStatus(chunkPayload *chunkPayloadDa
 				)
 			}
 		} else if stream.reliabilityType == ReliabilityTypeTimed {
-			elapsed := int64(time.Since(chunkPayload.since).Seconds() * 1000)
+			// The lifetime is that of the user message and runs from its
+			// first transmission; since is reset on every retransmission.
+			first := chunkPayload
+			if chunkPayload.head != nil {
+				first = chunkPayload.head
+			}
+			firstSent := first.firstSent
+			if firstSent.IsZero() {
+				firstSent = chunkPayload.since
+			}
+			elapsed := int64(time.Since(firstSent).Seconds() * 1000)
 			if elapsed >= int64(stream.reliabilityValue) {
 				chunkPayload.setAbandoned(true)
 				a.rackRemove(chunkPayload)
